@@ -156,7 +156,7 @@ def bookkeeping(H):
     H.prove(stroke.fill == "blue", "bookkeeping.stroke_piece_painted_with_stroke_paint")
     # a renderer clamps every opacity to [0, 1] before using it (SVG 1.1 11.x "values outside the range 0.0 - 1.0 are clamped")
     clamp = lambda v: smax(0, smin(1, v)) if H.mode == "sym" else max(0.0, min(1.0, v))
-    H.prove(H.close(stroke.opacity, opacity * clamp(so)), "bookkeeping.stroke_piece_opacity_is_opacity_times_clamped_stroke_opacity")
+    H.prove(H.close(clamp(stroke.opacity), clamp(opacity) * clamp(so)), "bookkeeping.stroke_piece_opacity_is_opacity_times_clamped_stroke_opacity")
     H.prove(H.close(stroke.fill_opacity, 1.0), "bookkeeping.stroke_piece_fill_opacity_reset")
     H.prove(stroke.fill_rule == "nonzero" and stroke.clip_rule == "nonzero", "bookkeeping.stroke_outline_is_nonzero")
     got = [(c, tuple(x)) for c, x in H.call(SVGPath.__iter__, stroke)]
@@ -167,7 +167,7 @@ def bookkeeping(H):
     if fill_paints:
         fill = out[0]
         H.prove(fill is shape and fill.fill == "red" and fill.fill_rule == "evenodd", "bookkeeping.fill_piece_first_so_stroke_is_drawn_above_it")
-        H.prove(H.close(fill.opacity, opacity * clamp(fo)), "bookkeeping.fill_piece_opacity_is_opacity_times_clamped_fill_opacity")
+        H.prove(H.close(clamp(fill.opacity), clamp(opacity) * clamp(fo)), "bookkeeping.fill_piece_opacity_is_opacity_times_clamped_fill_opacity")
         H.prove(H.close(fill.fill_opacity, 1.0), "bookkeeping.fill_piece_fill_opacity_reset")
         H.prove(fill.id == "" and stroke.id == "", "bookkeeping.ids_cleared_when_shape_is_split")
     else:
